@@ -1,11 +1,12 @@
-from cfgcommon import COMMON_ASSUME
+from cfgcommon import COMMON_ASSUME, twin_job, twin_text, TWIN_TECHNIQUE
 
 CFG = {
 "level": "model_checking",
-"technique": "bounded-exhaustive enumeration of basis/lattice families against textbook references (interpolation argument for the (bi)linear and polynomial forms)",
-"jobs": [{"variant": "plain-c17", "id": "C17"}],
+"technique": "bounded-exhaustive enumeration of basis/lattice families against textbook references (interpolation argument for the (bi)linear and polynomial forms)" + TWIN_TECHNIQUE,
+"jobs": [{"variant": "plain-c17", "id": "C17", "share": 0.85}, twin_job("C17T")],
 "engine": "enum",
-"level_text": "Every member of explicitly stated finite families (quaternion tensor grid, all 26² lattice direction pairs plus a near-(anti)parallel ladder, all 16×16 matrix basis pairs, ~72k sparse integer matrices for det/inverse, TRS and mesh-transform grids, dyadic AABB lattices) is executed on the real code and compared with textbook references; exhaustive within the families, and by linearity/polynomial interpolation decisive for Add/Multiply/MulPosition/Rotate beyond them. Magnitude ladder: determinant/inverse of 24 sparse and 6 affine matrices with all entries resp. the linear block scaled by sigma in {2^-60..2^60 (13 dyadic steps), 1e-6..1e6 (8 decimal steps)}, and rotation / TRS / MulPosition / mesh transforms over 6 rotations x 3 translations x 3 scales at the same magnitudes, with tolerances relative to the operands (never '1 +'). Size ladder: TransformArray / TransformInPlace / Mesh.ApplyTRS / Rotate / Translate / Scale on n points for n = 2^k-1, 2^k, 2^k+1, 3*2^(k-1)+3, k = 2..15 (thorough 17), every element compared with the point map.",
+"engines": ["enum", "sched"],
+"level_text": "Every member of explicitly stated finite families (quaternion tensor grid, all 26² lattice direction pairs plus a near-(anti)parallel ladder, all 16×16 matrix basis pairs, ~72k sparse integer matrices for det/inverse, TRS and mesh-transform grids, dyadic AABB lattices) is executed on the real code and compared with textbook references; exhaustive within the families, and by linearity/polynomial interpolation decisive for Add/Multiply/MulPosition/Rotate beyond them. Magnitude ladder: determinant/inverse of 24 sparse and 6 affine matrices with all entries resp. the linear block scaled by sigma in {2^-60..2^60 (13 dyadic steps), 1e-6..1e6 (8 decimal steps)}, and rotation / TRS / MulPosition / mesh transforms over 6 rotations x 3 translations x 3 scales at the same magnitudes, with tolerances relative to the operands (never '1 +'). Size ladder: TransformArray / TransformInPlace / Mesh.ApplyTRS / Rotate / Translate / Scale on n points for n = 2^k-1, 2^k, 2^k+1, 3*2^(k-1)+3, k = 2..15 (thorough 17), every element compared with the point map." + twin_text("TransformArray / TransformInPlace / Mesh.ApplyTRS-Rotate-Translate-Scale, matrix inverse-multiply-add-determinant, box growth and closest point, RotationTo on three different transform triples and point sets"),
 "level_note": "Trusted: the reference formulas in harness/props/c17 (Hamilton product, Leibniz determinant, Rodrigues). Assumes Rotate/Add/Multiply stay branch-free polynomial forms; values outside the grids are not claimed for Determinant/Inverse/RotationTo/AABB.",
 "rule": "every member of the stated finite families is executed; a case is non-trivial when its operands are non-zero; distinct by operand tuple",
 "assumptions": COMMON_ASSUME + ["Rotate stays a polynomial of degree 2 in q and 1 in v; Add/Multiply/MulPosition stay branch-free (bi)linear forms"],
